@@ -73,7 +73,8 @@ class Ref(object):
         self.nodes = {}      # name -> {'kind', 'pats': [..], 'head_pat', 'vol_curve'}
         self.links = {}      # name -> {'kind', 'sub', 'start', 'end', 'speed_pat', 'curve'}
         self.patterns = {}   # name -> True
-        self.curves = {}     # name -> curve type
+        self.curves = {}     # name -> curve type (the shape it can be used as)
+        self.untyped = set() # names of curves declared with curve_type None
         self.sources = {}    # name -> {'node', 'pat'}
         self.controls = {}   # name -> {'kind', 'nodes': set, 'links': set}
 
@@ -246,7 +247,8 @@ def views(wn, ref):
             if nobj is not wn.get_node(nn):
                 return 'end_nodes', '%s node object of link %r is not the registered node %r' % (which, name, nn)
     # 4 describe -----------------------------------------------------------------------------------
-    ncur = dict((t, len(ref.curves_of(t))) for t in CURVE_TYPES)
+    ncur = dict((t, len([n for n in ref.curves_of(t) if n not in ref.untyped])) for t in CURVE_TYPES)
+    nuntyped = len([n for n in ref.curves if n in ref.untyped])
     d0 = {'Nodes': len(nodes), 'Links': len(links), 'Patterns': len(pats), 'Curves': len(curves),
           'Sources': len(srcs), 'Controls': len(ctls)}
     d1 = dict(d0)
@@ -266,6 +268,11 @@ def views(wn, ref):
             grp = 'describe'
             if isinstance(got, dict) and dict(got, Curves=None) == dict(exp, Curves=None):
                 grp = 'curve_types'     # only the per-type curve counts differ
+                gc, ec = got.get('Curves'), exp.get('Curves')
+                if (nuntyped and isinstance(gc, dict) and isinstance(ec, dict) and set(gc) == set(ec)
+                        and all(ec[k] <= gc[k] <= ec[k] + nuntyped for k in ec)
+                        and sum(gc.values()) <= sum(ec.values()) + nuntyped):
+                    continue    # curves declared without a type may be counted under the type their use gave them
             return grp, 'wn.describe(%d) = %r, expected %r' % (lvl, got, exp)
     # typed curve views --------------------------------------------------------------------------------
     creg = wn.curves
@@ -273,17 +280,18 @@ def views(wn, ref):
                                        ('EFFICIENCY', 'efficiency_curve_names', 'efficiency_curves'),
                                        ('HEADLOSS', 'headloss_curve_names', 'headloss_curves'),
                                        ('VOLUME', 'volume_curve_names', 'volume_curves')):
-        exp = sorted(ref.curves_of(ctype))
+        exp = sorted(n for n in ref.curves_of(ctype) if n not in ref.untyped)
+        may = set(n for n in ref.curves if n in ref.untyped)    # typed by use only: listing them is not specified
         got, err = guarded('curve_types', 'wn.curves.' + names_attr, lambda: sorted(getattr(creg, names_attr)))
         if err:
             return err
-        if got != exp:
-            return 'curve_types', 'wn.curves.%s = %r, existing %s curves are %r' % (names_attr, got, ctype, exp)
+        if sorted(set(got) - may) != exp or len(set(got)) != len(got):
+            return 'curve_types', 'wn.curves.%s = %r, existing %s curves are %r (untyped: %r)' % (names_attr, got, ctype, exp, sorted(may))
         got, err = guarded('curve_types', 'list(wn.curves.%s())' % it_attr, lambda: _names(list(getattr(creg, it_attr)())))
         if err:
             return err
-        if got != exp:
-            return 'curve_types', 'wn.curves.%s() yields %r, existing %s curves are %r' % (it_attr, got, ctype, exp)
+        if sorted(set(got) - may) != exp or len(set(got)) != len(got):
+            return 'curve_types', 'wn.curves.%s() yields %r, existing %s curves are %r (untyped: %r)' % (it_attr, got, ctype, exp, sorted(may))
     # 5 get_links_for_node ------------------------------------------------------------------------------
     for n in nodes:
         inl = sorted(l for l, d in ref.links.items() if d['end'] == n)
@@ -355,6 +363,12 @@ def resolve(op, ref, wn):
     if name == 'add_curve':
         t = CURVE_TYPES[a[0] % 4]
         n = ref.fresh('curve', ref.curves)
+        if (a[0] // 4) % 2 == 1:
+            # declared without a type, as the INP reader does for every curve: the registry types it when it is used
+            def apply_untyped():
+                ref.curves[n] = t
+                ref.untyped.add(n)
+            return Step('add_curve:untyped', lambda: wn.add_curve(n, None, list(CURVE_POINTS[t])), apply_untyped)
         return Step('add_curve', lambda: wn.add_curve(n, t, list(CURVE_POINTS[t])),
                     lambda: ref.curves.__setitem__(n, t))
     if name == 'add_junction':
@@ -367,7 +381,7 @@ def resolve(op, ref, wn):
                     creates_ref=bool(p))
     if name == 'add_tank':
         n = ref.fresh('Tank', ref.nodes)
-        c = _opt(ref.curves_of('VOLUME'), a[0])
+        c = _opt([c_ for c_ in ref.curves_of('VOLUME') if c_ not in ref.untyped], a[0])
         return Step('add_tank' + (':curve' if c else ''),
                     lambda: wn.add_tank(n, elevation=20.0, vol_curve=c),
                     lambda: ref.nodes.__setitem__(n, {'kind': 'Tank', 'pats': [], 'head_pat': None, 'vol_curve': c}),
@@ -551,7 +565,10 @@ def resolve(op, ref, wn):
         if ref.curve_users(n):
             return Step('remove_curve:refuse', lambda: wn.remove_curve(n), lambda: None, refuse=True,
                         removal=True, tags=['refused:curve_in_use'])
-        return Step('remove_curve', lambda: wn.remove_curve(n), lambda: ref.curves.__delitem__(n), removal=True)
+        def apply_remove_curve():
+            del ref.curves[n]
+            ref.untyped.discard(n)
+        return Step('remove_curve', lambda: wn.remove_curve(n), apply_remove_curve, removal=True)
     if name == 'remove_source':
         n = _pick(list(ref.sources), a[0])
         if n is None:
@@ -601,7 +618,7 @@ def resolve(op, ref, wn):
         n = _pick(ref.nodes_of('Tank'), a[0])
         if n is None:
             return None
-        c = _opt(ref.curves_of('VOLUME'), a[1])
+        c = _opt([c_ for c_ in ref.curves_of('VOLUME') if c_ not in ref.untyped], a[1])
         return Step('set_vol_curve' + ('' if c else ':none'),
                     lambda: setattr(wn.get_node(n), 'vol_curve_name', c),
                     lambda: ref.nodes[n].__setitem__('vol_curve', c), creates_ref=True)
@@ -777,6 +794,9 @@ def enumerate_cases(tier):
         'head_pump': ([C(0), J, J, ['add_pump', 0, 0, 1, 0, 0]], ['remove_link', 0, 0]),
         'head_pump_pat': ([P, C(0), J, J, ['add_pump', 0, 0, 1, 0, 1]], ['remove_link', 0, 0]),
         'gpv': ([C(2), J, J, ['add_valve', 0, 0, 5, 0]], ['remove_link', 0, 0]),
+        # curves declared without a type (as the INP reader creates them) and typed by their use only
+        'head_pump_untyped_curve': ([C(4), J, J, ['add_pump', 0, 0, 1, 0, 0]], ['remove_link', 0, 0]),
+        'gpv_untyped_curve': ([C(6), J, J, ['add_valve', 0, 0, 5, 0]], ['remove_link', 0, 0]),
         'source_pat': ([P, J, ['add_source', 0, 1]], ['remove_source', 0]),
         'source': ([J, ['add_source', 0, 0]], ['remove_source', 0]),
         'demand_pat': ([P, J, ['add_demand', 0, 1]], ['remove_node', 0, 0]),
